@@ -145,3 +145,76 @@ func (p *Program) LemmaObligation(lm *SpecLemma) (ob *Obligation, err error) {
 	ob.Traces = [][]string{nil}
 	return ob, nil
 }
+
+// LemmaStatement: the lemma as an instantiable schema (used when a contract says `uses <lemma>`).
+func (p *Program) LemmaStatement(name string) (li *LemmaInst, err error) {
+	var lm *SpecLemma
+	for _, l := range p.Spec.Lemmas {
+		if l.Name == name {
+			lm = l
+		}
+	}
+	if lm == nil {
+		return nil, fmt.Errorf("unknown lemma %q", name)
+	}
+	defer func() {
+		if r := recover(); r != nil {
+			if e, ok := r.(evalError); ok {
+				err = fmt.Errorf("lemma %s: %s", name, e.msg)
+				return
+			}
+			panic(r)
+		}
+	}()
+	vars := map[string]TV{}
+	var bs []BVar
+	x := &Exec{prog: p, fresh: map[string]bool{}}
+	for _, pv := range lm.Params {
+		s, ty, err := p.sortFromText(pv.Type, nil)
+		if err != nil {
+			return nil, err
+		}
+		bn := pv.Name + "!l"
+		bs = append(bs, BVar{bn, s})
+		bt := &Term{Kind: KApp, Op: bn, Sort: s}
+		if ty != nil {
+			vars[pv.Name] = TV{V: x.fromTerm(bt, ty), T: ty, S: s}
+		} else {
+			vars[pv.Name] = tvTerm(bt)
+		}
+	}
+	ctx := &EvalCtx{x: x, prog: p, st: newState(), vars: vars, noLocals: true}
+	var hyps []*Term
+	for _, r := range lm.Requires {
+		hyps = append(hyps, ctx.termOf(ctx.eval(r.E)))
+	}
+	body := Implies(And(hyps...), ctx.termOf(ctx.eval(lm.E)))
+	// trigger: an uninterpreted application whose arguments are exactly the parameters
+	var trig *Term
+	var find func(t *Term)
+	find = func(t *Term) {
+		if t == nil || trig != nil {
+			return
+		}
+		if t.Kind == KApp && t.Sym && len(t.Args) == len(bs) {
+			ok := true
+			for i, a := range t.Args {
+				if !(a.Kind == KApp && len(a.Args) == 0 && a.Op == bs[i].Name) {
+					ok = false
+				}
+			}
+			if ok {
+				trig = t
+				return
+			}
+		}
+		for _, a := range t.Args {
+			find(a)
+		}
+	}
+	find(body)
+	if trig == nil {
+		return nil, fmt.Errorf("lemma %s has no trigger (an application of a spec function to exactly its parameters)", name)
+	}
+	return &LemmaInst{Name: name, Params: bs, Trigger: trig, Body: body}, nil
+}
